@@ -197,6 +197,7 @@ type outcome struct {
 	stack    string
 	err      error
 	v        reflect.Value // of the container type
+	aliased  string
 }
 
 func decode(stream string, ct reflect.Type, simple bool, entry int) (o outcome) {
@@ -204,6 +205,16 @@ func decode(stream string, ct reflect.Type, simple bool, entry int) (o outcome) 
 	data := []byte(stream)
 	o.panicked, o.stack = h.Try(func() { o.err = iox.Decode(data, ptr.Interface(), simple, iox.Setting{}, entry) })
 	o.v = ptr.Elem()
+	if o.panicked == nil && o.err == nil {
+		// aliasing monitor: the decoded value must not change when the input is overwritten
+		before := clipv(o.v)
+		for i := range data {
+			data[i] = 0xAA
+		}
+		if after := clipv(o.v); after != before {
+			o.aliased = fmt.Sprintf("before=%s after=%s", before, after)
+		}
+	}
 	return
 }
 
@@ -263,6 +274,9 @@ func cell(c *h.Case, tk token, dt reflect.Type, pos []position) {
 				c.Violation("panic:"+sigCell+":"+h.PanicClass(fmt.Sprint(top.panicked))+"@"+h.FirstRepoFrame(top.stack), fmt.Sprintf("decoding %q into %s panicked: %v\n%s", tk.b, dt, top.panicked, h.TrimStack(top.stack)), rep)
 				continue
 			}
+			if top.aliased != "" {
+				c.Violation("decoded-value-aliases-input:"+sigCell, fmt.Sprintf("%q decoded into %s changed when the input buffer was overwritten: %s", tk.b, dt, top.aliased), rep)
+			}
 			// exactness
 			switch exp.kind {
 			case wantValue:
@@ -299,6 +313,9 @@ func cell(c *h.Case, tk token, dt reflect.Type, pos []position) {
 					continue
 				}
 				r.Distinct(tk.name + "|" + dt.String() + "|" + p.name)
+				if o.aliased != "" {
+					c.Violation("decoded-value-aliases-input:"+p.name+":"+sigCell, fmt.Sprintf("stream %q decoded into %s changed when the input buffer was overwritten: %s", stream, ct, o.aliased), rep2)
+				}
 				if (top.err == nil) != (o.err == nil) {
 					if p.name == "map-key" && top.err == nil && isNaNValue(top.v) {
 						continue
